@@ -343,8 +343,11 @@ struct stack_policy
         {
             std::vector<u8> cur(S::world_size());
             std::memcpy(cur.data(), S::world(), S::world_size());
+            // same environment on both sides: an armed upstream failure belongs to the history, not to the object
+            w.h.up.fail_armed = 0;
             auto a = run_probes(w, s);
             std::memcpy(S::world(), SIDE[j].data(), S::world_size());
+            w.h.up.fail_armed = 0;
             auto b = run_probes(w, int(w.x.owner));
             std::memcpy(S::world(), cur.data(), S::world_size());
             g_up() = &w.h.up;
@@ -467,6 +470,14 @@ struct stack_policy
             if (before.top && need + pad <= before.capleft)
                 t.fail("M-try", "try-null-although-fits", fmt("try_allocate returned null although %zu bytes (incl. padding) fit into %zu", need + pad, before.capleft));
         }
+        // a request that obtained nothing from upstream leaves the announced figures alone (C18: the counters move only
+        // with memory that is really taken or returned)
+        if (t.up_allocs == 0 && after.next_cap != before.next_cap)
+            t.fail("M-counters", "next-capacity-changed-by-failed-alloc",
+                   fmt("next_capacity() went from %zu to %zu across a request that failed and obtained no block", before.next_cap, after.next_cap));
+        if (t.up_allocs == 0 && after.blocks == before.blocks && after.capleft != before.capleft)
+            t.fail("M-counters", "capacity-changed-by-failed-alloc",
+                   fmt("capacity_left() went from %zu to %zu across a request that failed and obtained no block", before.capleft, after.capleft));
         (void)ex;
         (void)w;
     }
